@@ -111,7 +111,7 @@ impl AnyCheck {
         match self {
             AnyCheck::Prog(c) => format!("{}/{}", c.kind.name(), c.case.backend.name()),
             AnyCheck::Tape(c) => format!("tape/i{}", c.width),
-            AnyCheck::Svec(c) => format!("svec/N{}/{}", c.n, if c.tracked { "tracked" } else { "u32" }),
+            AnyCheck::Svec(c) => format!("svec/N{}/{}", c.n, if c.zst { "zst" } else if c.tracked { "tracked" } else { "u32" }),
             AnyCheck::Cli(_) => "cli".to_string(),
             AnyCheck::Compile(c) => format!("compile/i{}/O{}", c.width, c.level.min(4)),
             AnyCheck::Bytecode(c) => format!("bytecode/regs{}", c.regs),
